@@ -289,3 +289,6 @@ UNITS.append(Unit("C03", "jsonargparse._typehints:ActionTypeHint.apply_appends",
 import dataclasses as _dc  # noqa: E402
 from contracts.c04 import UNITS as _C04_UNITS  # noqa: E402
 UNITS += [_dc.replace(u, prop="C03") for u in _C04_UNITS if u.target.endswith("ArgumentParser.get_defaults")]
+
+from contracts.check_value_key import check_value_key_unit  # noqa: E402
+UNITS.append(check_value_key_unit("C03"))
